@@ -793,6 +793,27 @@ fn run_plan(plan: &Plan) -> RunResult {
     }
 }
 
+/// With VERIF_TRACE set (always, for replays): every hook event in global
+/// order - who ran, what it read (and from which message), what it stored.
+fn print_trace(r: &RunResult) {
+    if std::env::var("VERIF_TRACE").is_err() {
+        return;
+    }
+    let mut all: Vec<(u64, usize, String)> = Vec::new();
+    for (i, t) in r.threads.iter().enumerate() {
+        for (e, at) in t.1.iter().zip(r.ats[i].iter()) {
+            all.push((*at, i, format!("{:?}", e)));
+        }
+    }
+    all.sort();
+    for (at, t, e) in all {
+        println!("  [{:3}] thread {} {}", at, t, e);
+    }
+    for n in &r.notes {
+        println!("  note {:?}", n);
+    }
+}
+
 fn push_v(vs: &mut Vec<Violation>, prop: &'static str, inv: &str, detail: String) {
     if !vs.iter().any(|v| v.inv == inv) {
         vs.push(Violation { prop, inv: inv.to_string(), detail, at_op: usize::MAX, key: String::new() });
@@ -1166,21 +1187,7 @@ impl World for ThreadsWorld {
     fn execute(&self, plan: &Plan, stats: &mut Stats) -> Outcome {
         let mut log = LogHash::new();
         let r = run_plan(plan);
-        if std::env::var("VERIF_TRACE").is_ok() {
-            let mut all: Vec<(u64, usize, String)> = Vec::new();
-            for (i, t) in r.threads.iter().enumerate() {
-                for (e, at) in t.1.iter().zip(r.ats[i].iter()) {
-                    all.push((*at, i, format!("{:?}", e)));
-                }
-            }
-            all.sort();
-            for (at, t, e) in all {
-                println!("  [{:3}] thread {} {}", at, t, e);
-            }
-            for n in &r.notes {
-                println!("  note {:?}", n);
-            }
-        }
+        print_trace(&r);
         let violations = judge(plan, &r, stats, &mut log);
         let mut total_events = 0usize;
         let mut active_threads = 0;
@@ -1517,6 +1524,7 @@ impl World for NfsThreadsWorld {
             violations.push(Violation { prop: "C19", inv: "C19.trust_failed".into(), detail: format!("add_trusted_path failed: {}", e), at_op: 0, key: String::new() });
         }
         let r = run_plan(plan);
+        print_trace(&r);
         violations.extend(judge_nfs(plan, &r, stats, &mut log));
         let mut total_events = 0usize;
         let mut active = 0;
@@ -1629,6 +1637,7 @@ impl World for ChunkThreadsWorld {
         COUNTERS_ON.store(true, Ordering::Relaxed);
         let r = run_plan(plan);
         COUNTERS_ON.store(false, Ordering::Relaxed);
+        print_trace(&r);
         let now = (owning_iovec::ByteArena::num_live_chunks(), owning_iovec::ByteArena::num_live_bytes());
         let mut violations = Vec::new();
         for n in &r.notes {
